@@ -64,11 +64,13 @@ TEXT = {
          "Trusted: Lean kernel; hand models of Request::try_from and of the connection checked differentially; the connection side is tied to the specification by C01."),
  "C07": ("Theorems over the reactive server model with ghost connection identities: under the server invariant (preserved by every poll over every admissible batch with any read/write results, by respond and by flush — C10.requests_inv/respond_inv/flush_inv) an outstanding token's descriptor identifies exactly the connection INSTANCE that yielded it (outstanding_token_identifies: a connection cannot be reaped, hence its descriptor not reused, while a token is outstanding); "
          "respond_routes: the response goes to the end of that instance's queue or is dropped if it is closed, every other connection is untouched; respond_unknown_dropped / respond_closed_dropped; event_frame; wrote_own_bytes (bytes written to a client are the next unsent bytes of its own connection); server_reply_to_own_input (400/500 go to the connection whose input caused them). "
+         "End to end for clients that stay connected (System.lean, proved in Props/C08System.lean): received_is_own_queue and queue_is_answers_and_interims — over every admissible history the bytes a client receives are a prefix of the serialization of the responses queued for it, which are the application's answers to its own requests in the order supplied plus the interim responses caused by its own input. "
          "Correspondence: every poll of random and aimed histories (close with requests in flight, reconnect with descriptor reuse, late answers) compared with the model; per-client tag oracle on the real sockets.",
          "Trusted: Lean kernel; hand model of server.rs (HashMap as list with unique keys) checked differentially on the real kernel; environment hypotheses E1, E6, A1 are hypotheses of the theorems (EvOK), observed to hold in every history."),
  "C08": ("Theorems, safety half: respond to an outstanding token never fails (respond_ok); a successful read yields exactly the connection's deliveries for that read, once, and counts them in flight (read_yields_deliveries, with C01 for what those deliveries are); respond_arms_out; interest_follows_work; write_progress; flush_delivers (if the sockets accept everything, a flush sends exactly the unsent bytes); stale_out_repaired (F4); with C09.poll_returns polling never fails. "
          "Liveness half, over an explicit kernel model (level-triggered readiness over the server's interest set; Kernel.lean): no_spin (nothing outstanding and everything registered for input => the epoll descriptor is silent), no_lost_wakeup (a pending connect, unread input on a connection waiting for input, or unsent output with room in the socket => it signals), silent_means_idle, batch_admissible and poll_ok (the batch the kernel returns satisfies the environment hypotheses, polling a well-behaved world never fails and keeps invariant and well-behavedness), "
          "poll_progress: every poll made when the descriptor signals strictly decreases (pending connects + unread bytes, unsent bytes, stale registrations) lexicographically, and that order is well-founded (lexLt_wf) — hence finitely many polls between two actions of clients or application. "
+         "End to end (System.lean: server + kernel model + clients that connect/send/drain + an application answering outstanding requests, with ghost logs per client): for EVERY admissible history, yielded_is_spec (the requests yielded from a client, over all polls, are exactly the byte-at-a-time specification's deliveries for the bytes consumed from it — each once, in order), received_is_own_queue (what a client received ++ what its connection still has to send = the serialization of the responses queued for IT), queue_is_answers_and_interims (that queue is the application's answers to its own requests in the order supplied, interleaved with the specification's interim responses), sent_is_consumed_plus_unread, answers_match_yields, system_inv. "
          "Correspondence: well-behaved histories on the real kernel (no error, yield-once, full delivery, not ready at quiescence), every poll compared with the model, and the kernel model's readiness prediction compared with what epoll reports on every poll.",
          "Trusted: Lean kernel; hand model of server.rs checked differentially; the kernel model (E6/E7/E8) is an assumption — validated on every run against the real epoll, not proved; E1, E4, E5, A1."),
  "C09": ("Theorems: poll_returns — under the invariant, for ANY admissible batch with ANY flags and ANY read/write results the poll returns normally or reports shutdown (only with the kill event): no failure, no panic; all_events_handled (no early return drops work, the sweep runs); hangup_closes, failed_write_closes, closed_and_answered_is_swept with C10.reaped (a dead connection is released by the first completed poll after everything yielded from it is answered); others_unaffected (an event of one connection changes nothing about another); stale_out_is_harmless (F2/F4). "
